@@ -400,3 +400,140 @@ Example C16_gen_box_instance :
     [[5]; [150]; [16]; [20]; [3]] None
   = ([Fin eps; Fin 100; Fin (63 # 4); Fin (79 # 4)], [PInf; Fin 140; Fin (65 # 4); Fin (81 # 4)]).
 Proof. vm_compute. reflexivity. Qed.
+
+(* =====================================================================================
+   Route T for the DRIVER.  Gen/refinedriver.v is regenerated on every check run from the
+   CURRENT source of refine_leastsq, from `for _, f_iter in iterable:` to `return f`
+   (tools/py2coq_refinedriver.py, vocabulary Model/PyRefinedriver.v): the per-unit statements,
+   try / except RefineException / else, `for _n_iter in range(max_iter)` with its break, the
+   rms test after the loop, the compute_error block, the write-back on success, the NaN cost
+   on failure -- control flow translated generically, so the scope of the try block and the
+   place of every test and write is the place in the source.  Named primitives = the oracles
+   of section 8 (W : world): prepare_subimages, minimize (per unit and iteration), the Hessian
+   block, the pandas writes; ff.compute_bounds is the GENERATED Gen.bounds.compute_bounds.
+   Proofs/RefinedriverGen.v.
+   Hand-written and trusted on the generated side: the translator and the vocabulary.
+   ===================================================================================== *)
+From TP Require Import Model.PyRefinedriver Gen.refinedriver Proofs.RefinedriverGen.
+
+(* ---- 10. generated driver = the control-flow model of section 8/9, for all oracles ------------
+   W: any oracles and any argument values (max_iter = 0 included); bo: the bounds argument
+   (None or a dictionary); diameter; t: any table; us: any sequence of units.  The generated
+   driver, entered with the GENERATED validate_bounds of the bounds argument and
+   radius = diameter // 2, returns exactly what run2 returns (the same table, or None = an
+   exception leaves refine_leastsq).  compute_error=False (the model has no <param>_std
+   columns; see 12).  whole_table: at level 'global' the source assigns whole columns
+   (f['cost'] = ..., f[ff.params] = ...), which is the unit's rows because the only unit of
+   that level is the whole table (iterable = [(None, f)], checked by the translator); no
+   condition at level 'cluster'. *)
+Theorem C16_gen_driver_is_model : forall (W : world) (bo : option bdict) (diameter : list Z) t us,
+  w_compute_error W = false ->
+  (w_level_global W = true -> forall u, In u us -> fst u = tbl_index t) ->
+  Gen.refinedriver.refine_leastsq_driver W
+    (Gen.bounds.validate_bounds (w_ff_params W) bo (Gen.bounds.refine_leastsq_radius diameter)) t us =
+  run2 (w_prepare_subimages W) (w_minimize W) (w_ff_params W) (w_ff_modes W) (w_ndim W)
+       (match bo with None => [] | Some d => d end) (radiusQ (Gen.bounds.refine_leastsq_radius diameter))
+       (w_max_iter W) (w_max_shift W) (w_max_rms_dev W) t us.
+Proof. exact gen_driver_eq. Qed.
+Print Assumptions C16_gen_driver_is_model.
+
+(* ---- 11. C16_driver_full, about the generated driver ------------------------------------------
+   the statement of section 9 word for word, with the translated code in place of run2 *)
+Theorem C16_gen_driver_full : forall (W : world) (bo : option bdict) (diameter : list Z) us t0,
+  let bd := match bo with None => [] | Some d => d end in
+  let radius := radiusQ (Gen.bounds.refine_leastsq_radius diameter) in
+  w_compute_error W = false ->
+  (w_level_global W = true -> forall u, In u us -> fst u = tbl_index t0) ->
+  disjoint_units us -> (0 < w_max_iter W)%nat ->
+  (forall u, In u us -> feasible (w_ff_params W) (w_ff_modes W) bd radius t0 u) ->
+  exists t,
+    Gen.refinedriver.refine_leastsq_driver W
+      (Gen.bounds.validate_bounds (w_ff_params W) bo (Gen.bounds.refine_leastsq_radius diameter)) t0 us = Some t /\
+    (forall i, (forall u, In u us -> ~ In i (fst u)) -> same_row t0 t i) /\
+    forall u, In u us ->
+      kept_with_nan_cost t0 t u \/
+      exists p r, holds_fit t0 t u p r /\ r <= w_max_rms_dev W /\
+        (opt_in_box2 (w_minimize W) -> forall params0,
+           all_fin2 (rows_of t0 u) = Some params0 ->
+           List.length (w_ff_modes W) = List.length params0 -> List.length (w_ff_params W) = List.length params0 ->
+           entries_within (w_ff_params W) (w_ff_modes W) bd radius (snd u) params0 p).
+Proof. exact gen_driver_full. Qed.
+Print Assumptions C16_gen_driver_full.
+
+(* ---- 12. compute_error=True, as far as it affects what is written ---------------------------------
+   Whatever the Hessian block does (w_hessian / w_result_std / w_params_std arbitrary): a table
+   that IS returned is the table of the model -- the ff.params and cost columns are written
+   exactly as with compute_error=False; the block can only add exceptions (it is inside the
+   try block, but what it raises is not a RefineException). *)
+Theorem C16_gen_compute_error_only_adds_exceptions : forall (W : world) (bo : option bdict) (diameter : list Z) t us t',
+  (w_level_global W = true -> forall u, In u us -> fst u = tbl_index t) ->
+  Gen.refinedriver.refine_leastsq_driver W
+    (Gen.bounds.validate_bounds (w_ff_params W) bo (Gen.bounds.refine_leastsq_radius diameter)) t us = Some t' ->
+  run2 (w_prepare_subimages W) (w_minimize W) (w_ff_params W) (w_ff_modes W) (w_ndim W)
+       (match bo with None => [] | Some d => d end) (radiusQ (Gen.bounds.refine_leastsq_radius diameter))
+       (w_max_iter W) (w_max_shift W) (w_max_rms_dev W) t us = Some t'.
+Proof. exact gen_driver_compute_error_le. Qed.
+Print Assumptions C16_gen_compute_error_only_adds_exceptions.
+
+(* source fact, outside the property's reach in this environment (compute_error=True needs
+   numdifftools, which is absent: ImportError at entry): at level 'cluster' the handler's
+   `f[f_iter.index, cols_std] = np.nan` is not a .loc write -- pandas raises TypeError
+   (unhashable Index in a tuple key).  So with compute_error=True a failed fit of the first
+   unit (and likewise of any later one) does NOT end in cost NaN: the exception leaves
+   refine_leastsq.  Stated for the translated code: *)
+Theorem C16_gen_compute_error_failed_fit_escapes : forall (W : world) (bo : option bdict) (diameter : list Z) t u us,
+  w_compute_error W = true -> w_level_global W = false ->
+  fit2 (w_prepare_subimages W) (w_minimize W) (w_ff_params W) (w_ff_modes W) (w_ndim W)
+       (match bo with None => [] | Some d => d end) (radiusQ (Gen.bounds.refine_leastsq_radius diameter))
+       (w_max_iter W) (w_max_shift W) (w_max_rms_dev W) 0%nat (snd u) (rows_of t u) = Failed ->
+  Gen.refinedriver.refine_leastsq_driver W
+    (Gen.bounds.validate_bounds (w_ff_params W) bo (Gen.bounds.refine_leastsq_radius diameter)) t (u :: us) = None.
+Proof. exact gen_compute_error_failed_fit_escapes. Qed.
+Print Assumptions C16_gen_compute_error_failed_fit_escapes.
+
+(* ---- non-vacuity: the generated driver, executed ------------------------------------------------- *)
+Definition W_ex (opt : nat -> nat -> list ext -> list ext -> list Q -> list (list Q) -> list (list Q) -> ores)
+           (max_iter : nat) (max_rms_dev : Q) (level_global compute_error : bool) : world :=
+  {| w_prepare_subimages := fun _ _ _ => true; w_minimize := opt;
+     w_hessian := fun _ _ => None; w_result_std := fun _ => None; w_params_std := fun _ _ _ => None;
+     w_ff_params := ps2; w_ff_modes := modes2; w_ndim := 2; w_max_iter := max_iter; w_max_shift := 1;
+     w_max_rms_dev := max_rms_dev; w_level_global := level_global; w_compute_error := compute_error |}.
+Definition t_ex : tbl :=
+  {| pcols := [[Fin 5; Fin 5]; [Fin 150; NaN]; [Fin 16; Fin 30]; [Fin 20; Fin 30]; [Fin 3; Fin 3]]; cost := [PInf; PInf] |}.
+
+(* the run of C16_isolation_reachable through the TRANSLATED code (bounds {'signal': (100, 140)},
+   diameter 13): unit 1 fitted with its signal on the upper bound, unit 2 (NaN signal) keeps
+   its values and gets cost NaN *)
+Example C16_gen_driver_runs :
+  Gen.refinedriver.refine_leastsq_driver (W_ex (fun _ _ => clip_opt) 10 1 false false)
+    (Gen.bounds.validate_bounds ps2 (Some [(KParam PSignal FAbs, Pair (Fin 100) (Fin 140))]) (Gen.bounds.refine_leastsq_radius [13%Z; 13%Z]))
+    t_ex [([0%nat], None); ([1%nat], None)]
+  = Some {| pcols := [[Fin 5; Fin 5]; [Fin 140; NaN]; [Fin 16; Fin 30]; [Fin 20; Fin 30]; [Fin 3; Fin 3]];
+            cost := [Fin 0; NaN] |}.
+Proof. vm_compute. reflexivity. Qed.
+
+(* exhaustion of max_iter = 2 without a break, then the rms test AFTER the loop (walk_opt: rms 1/2):
+   accepted for max_rms_dev = 1, a failed fit for max_rms_dev = 1/4; max_iter = 0: NameError escapes *)
+Example C16_gen_exhaustion_then_rms_test :
+  let vb := Gen.bounds.validate_bounds ps2 None [6%Z; 6%Z] in
+  let t := {| pcols := [[Fin 5]; [Fin 150]; [Fin 16]; [Fin 20]; [Fin 3]]; cost := [PInf] |} in
+  Gen.refinedriver.refine_leastsq_driver (W_ex walk_opt 2 1 false false) vb t [([0%nat], None)]
+    = Some {| pcols := [[Fin 5]; [Fin 150]; [Fin 18]; [Fin 20]; [Fin 3]]; cost := [Fin (1 # 2)] |} /\
+  Gen.refinedriver.refine_leastsq_driver (W_ex walk_opt 2 (1 # 4) false false) vb t [([0%nat], None)]
+    = Some {| pcols := pcols t; cost := [NaN] |} /\
+  Gen.refinedriver.refine_leastsq_driver (W_ex walk_opt 0 1 false false) vb t [([0%nat], None)] = None.
+Proof. repeat split; vm_compute; reflexivity. Qed.
+
+(* level 'global' (whole-column writes), one unit = the whole table: same result as at level 'cluster' *)
+Example C16_gen_driver_runs_global :
+  Gen.refinedriver.refine_leastsq_driver (W_ex (fun _ _ => clip_opt) 10 1 true false)
+    (Gen.bounds.validate_bounds ps2 (Some [(KParam PSignal FAbs, Pair (Fin 100) (Fin 140))]) [6%Z; 6%Z])
+    {| pcols := [[Fin 5]; [Fin 150]; [Fin 16]; [Fin 20]; [Fin 3]]; cost := [PInf] |} [([0%nat], None)]
+  = Some {| pcols := [[Fin 5]; [Fin 140]; [Fin 16]; [Fin 20]; [Fin 3]]; cost := [Fin 0] |}.
+Proof. vm_compute. reflexivity. Qed.
+
+(* compute_error=True at level 'cluster': the NaN start of unit 2 is a failed fit, and the call raises *)
+Example C16_gen_compute_error_escape_instance :
+  Gen.refinedriver.refine_leastsq_driver (W_ex (fun _ _ => clip_opt) 10 1 false true)
+    (Gen.bounds.validate_bounds ps2 None [6%Z; 6%Z]) t_ex [([1%nat], None)] = None.
+Proof. vm_compute. reflexivity. Qed.
